@@ -224,7 +224,7 @@ Definition scenario_steps (cfg : config) (st1 : rstate) (skip_untested hf run_sc
 (* all_steps = inherited background ++ own; eff = effective tags; own = own tags
    (rows: rendered outline tags ++ examples tags); returns (state, result, failed, events) *)
 Definition run_scenario (cfg : config) (st : rstate) (id : nat) (all_steps : list step)
-           (own_steps_empty : bool) (eff own : list nat)
+           (no_steps_at_all : bool) (eff own : list nat)
   : rstate * scen_res * bool * list event :=
   let dry := c_dry cfg in
   let skip_untested0 := aborted st in
@@ -245,7 +245,7 @@ Definition run_scenario (cfg : config) (st : rstate) (id : nat) (all_steps : lis
   let wip := mem_nat (c_wip cfg) eff in
   let '(st2, l2, statuses, ev_steps) :=
     scenario_steps cfg st1 skip_untested hf run_sc wip id all_steps in
-  let ov1 : option status := if negb run_sc && own_steps_empty then Some skipped else None in
+  let ov1 : option status := if negb run_sc && no_steps_at_all then Some skipped else None in
   let '(st3, hf2, ev_after) :=
     if hooks_called then
       let '(sa, b1, e1) := run_hook cfg st2 HAfterScenario id in
@@ -318,7 +318,7 @@ Definition run_outline (cfg : config) (st : rstate) (o : outline) (bg : list ste
   : rstate * item_res * bool * list event :=
   let rows := outline_rows o in
   let '(st1, rs, fld, ev) :=
-    run_rows cfg st (bg ++ o_steps o) (match o_steps o with [] => true | _ => false end) anc rows false in
+    run_rows cfg st (bg ++ o_steps o) (match bg ++ o_steps o with [] => true | _ => false end) anc rows false in
   (st1, ROutline (o_id o) (outline_compute (length rows) (row_statuses rs)) rs, fld, ev).
 
 Definition notrun_outline (o : outline) (bg : list step) : item_res :=
@@ -356,7 +356,7 @@ Definition run_sitem (cfg : config) (st : rstate) (bg : list step) (anc : list n
   | SScen s =>
       let '(st1, res, fld, ev) :=
         run_scenario cfg st (sc_id s) (bg ++ sc_steps s)
-                     (match sc_steps s with [] => true | _ => false end)
+                     (match bg ++ sc_steps s with [] => true | _ => false end)
                      (sc_tags s ++ anc) (sc_tags s) in
       (st1, RScen res, fld, ev)
   | SOutline o => run_outline cfg st o bg anc
